@@ -3,6 +3,8 @@ package engine
 import (
 	"strings"
 
+	"github.com/uber-go/gopatch/internal/data"
+
 	"github.com/uber-go/gopatch/internal/zzverif/nd"
 )
 
@@ -79,5 +81,36 @@ func VerifC08Misplaced() {
 	if strings.HasPrefix(c.name, "wellformed") {
 		nd.Assert(err == nil, c.name+": a well-formed patch failed on its own instance")
 	}
+	nd.Reach("done")
+}
+
+// VerifC16RewriteErrors: an error raised while building the replacement of
+// one matched site is never swallowed: Change.Replace fails iff the node
+// replacer fails for some match (C16: a failing rewrite is reported; C09:
+// nothing is applied after a failed step).
+func VerifC16RewriteErrors() {
+	c := c08Misplaced[nd.Choose("case", len(c08Misplaced))]
+	r := faPrepare(c)
+	r.symboliseSite(0)
+	nd.Assume(r.want[0])
+	ch := r.prog.Changes[0]
+	d, ok := ch.Match(r.file)
+	nd.Assert(ok, c.name+": instance not matched")
+	if !ok {
+		return
+	}
+	var fd fileMatchData
+	if !data.Lookup(d, fileMatchKey, &fd) {
+		panic("harness: no file match data")
+	}
+	anyErr := false
+	for _, m := range fd.Matches {
+		if _, e := ch.replacer.NodeReplacer.Replace(m.data, NewChangelog(), m.region.Pos); e != nil {
+			anyErr = true
+		}
+	}
+	out, err := ch.Replace(d, NewChangelog())
+	nd.Assert((err != nil) == anyErr, c.name+": building the replacement of a matched site failed but Change.Replace did not report it (or reported a failure nobody had)")
+	nd.Assert((out == nil) == (err != nil), c.name+": a file was returned together with an error")
 	nd.Reach("done")
 }
